@@ -13,7 +13,7 @@ from oracles.ref_ber import frame as ref_frame
 PROPERTY = "C06"
 LEVEL = "model_checking"
 OPTIONS = {
-    "quick": {"max_paths": 100000, "unit_budget_s": 1500},
+    "quick": {"max_paths": 100000, "unit_budget_s": 600},
     "thorough": {"max_paths": 1500000, "unit_budget_s": 3300},
 }
 BOUNDS = {
